@@ -147,8 +147,8 @@ Definition case_code (k : scase) : N * N :=
               if negb (Nat.eqb nh np) then (11, 0)%N else
               let ci := rows_code cur rows 0 in
               if negb (N.eqb (fst ci) 0) then ci else if Bool.eqb (y_locked stp) locked then (0, 0)%N else (10, 0)%N
-          | None, EErr _ part =>                      (* gearpy raised, the model did not *)
-              let ci := if Nat.eqb nh np then rows_code_common cur part 0 else (0, 0)%N in
+          | None, EErr _ part =>                      (* gearpy raised, the model did not: compare what gearpy had recorded in that segment *)
+              let ci := if Nat.eqb nh np then rows_code_common cur part 0 else rows_code_common (nth np hs []) part 0 in
               if negb (N.eqb (fst ci) 0) then ci else (13, 0)%N
           | Some x, EErr e' _ =>
               let ci := if Nat.leb nh np then rows_code_common cur mine 0 else (0, 0)%N in
